@@ -24,7 +24,7 @@ class Case:
     def __init__(self, target, variant="", setup=None, requires=(), ensures=(),
                  raises=None, loops=None, call_contracts=None, specs=None,
                  overflow=True, note="", may_raise=(), level="proof", timeout=None,
-                 helper_loops=None, exc_ensures=None, libs=None, recursive=()):
+                 helper_loops=None, exc_ensures=None, libs=None, recursive=(), tiers=("quick", "thorough")):
         self.target = target
         self.variant = variant
         self.setup = setup
@@ -43,6 +43,7 @@ class Case:
         self.exc_ensures = exc_ensures or {}
         self.libs = libs or {}
         self.recursive = tuple(recursive)
+        self.tiers = tuple(tiers)
 
     @property
     def name(self):
